@@ -105,10 +105,10 @@ PROPS = {
     },
     "C06": {
         "modules": ["SifVerif.Props.C06"],
-        "theorems": ["C06_sign_shape", "C06_metadata"],
+        "theorems": ["C06_sign_shape", "C06_metadata", "C06_signed_is_current", "C06_complete", "C06_reports_covered", "C06_same_view", "C06_add_elsewhere"],
         "mode": "integ", "technique": INTEG,
-        "level_text": "partial proof: Sign appends, per signer, exactly one ungrouped Signature object linked with the group flag to the signed group, carrying hash type and fingerprint (C06_sign_shape), whose signed message is the metadata of exactly the signer's objects - header digest plus, per object in ascending ID order, relative ID, descriptor-stream digest and content digest (C06_metadata). The end-to-end completeness statement (sign ; verify = ok) is not yet proved in Lean; it is decided by the correspondence and oracle only: every generated image x key kind x selection is signed with the real library, the signed payload must equal the model's encMD byte for byte, the bytes after Sign must equal the model's, and verification of what was signed must succeed on the handle, after reload, after co-signing and after adds elsewhere.",
-        "summary": "sign shape and signed metadata proved; sign;verify completeness by correspondence",
+        "level_text": "proof (crypto and JSON idealised as hypotheses on per-blob facts): Sign appends, per signer, exactly one ungrouped Signature object linked with the group flag to the signed group, carrying hash type and fingerprint (C06_sign_shape), whose signed message is the metadata of exactly the signer's objects (C06_metadata, C06_signed_is_current); verification succeeds, and every result reports exactly its task's objects, whenever every signature the tasks look at is good - validated by a supplied key, fingerprint = validating entity's, message decoding to the metadata of the covered objects of the image being verified (C06_complete, C06_reports_covered; the converse of C04_sound); that metadata depends on the image only through its protected view - header stream and per object relative ID, descriptor stream, content - so a signature made on one image is good on every image with the same view: reloaded, relocated, a group's IDs shifted together, unprotected header fields changed (C06_same_view); adding an object outside the group - the signature objects Sign itself appends, co-signatures, objects elsewhere - leaves the header stream, the members and each member's descriptor stream and content unchanged (C06_add_elsewhere). Deletion elsewhere is decided by the campaign only. Tie: every generated image x key kind x selection is signed with the real library, the signed payload must equal the model's encMD byte for byte, the bytes after Sign must equal the model's, and verification of what was signed must succeed on the handle, after reload, after co-signing and after adds/deletes elsewhere.",
+        "summary": "good signatures => verify ok and reports covered objects; signed metadata depends only on the protected view; add elsewhere preserves it",
         "trusted_base": IBASE, "assumptions": [CORR, CRYPTO, "signature generation is third-party: the model takes the envelope blob as an input"],
     },
     "C07": {
